@@ -11,7 +11,7 @@ BOUNDS = dict(t0 = 'every instant of 1900-2300 (midnight for day/business/month 
               span = 'quick: |t1-t0| <= 21 days for day-based bumps (thorough 45), <= 36 hours for hour bumps, <= 5 steps for minute/second bumps, '
                      '<= 4 steps for week bumps and <= 2 for month/quarter/year bumps (thorough 6); either direction; the list length is decided per path by solver forks',
               bump = 'ints n in [-7,7]; timedelta(n days) and intraday timedeltas; single period strings with n in {-5..5} (month-based: day of month <= 28); '
-                     'business-day bumps k in {-5..5}; compound strings from a fixed list of 10')
+                     'business-day bumps k in {-5..5}; compound strings from a fixed list of 11 (spans up to 8 days / hours, 70 days for the month-based ones; thorough 30 / 130)')
 OUTSIDE = ['what the real dateutil.rrule does beyond the validated contract (monthly recurrences from day > 28, byweekday other than a weekday filter)',
            'spans longer than the bounds above', 'timezone-aware endpoints', 't0/t1 given as bumps relative to today']
 ASSUMPTIONS = ['dateutil.rrule is replaced by a contract stub (vf/symx/rrule_stub.py) validated against the real rrule on a grid at the start of every run',
@@ -141,7 +141,7 @@ def h_bday(maxspan):
         c.check('steps-of-k-weekdays', X.And([wdcount(X.ordinal(b)) - wdcount(X.ordinal(a)) == k for a, b in zip(res[:-1], res[1:])] + [True]))
     return h
 
-COMPOUNDS = ['1w1d', '1d1b', '1m1d', '2d-1d', '-1w-1b', '1y-1m', '-1m-1d', '1b1b', '1h30n', '-1d-12h']
+COMPOUNDS = ['1w1d', '1d1b', '1b1d', '1m1d', '2d-1d', '-1w-1b', '1y-1m', '-1m-1d', '1b1b', '1h30n', '-1d-12h']
 def h_compound(bump, maxspan):
     def h(c):
         R = _R(); D = _Dm()
@@ -184,6 +184,7 @@ def obligations(tier):
     for i, k in enumerate([-5, -2, -1, 1, 2, 3]):
         obs.append(Ob('bday.%d' % k, h_bday(day), setup = S, pins = {'k': i}, budget_s = 300 if q else 1200, fuel = 6000, desc = "drange(t0,t1,'%db') lists every %d-th weekday between the endpoints" % (k, abs(k))))
     for b in COMPOUNDS:
-        obs.append(Ob('compound.' + b, h_compound(b, 8 if q else 30), setup = S, budget_s = 300 if q else 1200, fuel = 6000, desc = "compound bump '%s' == iterated dt_bump" % b))
+        span = (70 if q else 130) if ('m' in b and 'y' not in b) else (8 if q else 30)         # month-based compounds need a span of several (unequal) months to take more than one step
+        obs.append(Ob('compound.' + b, h_compound(b, span), setup = S, budget_s = 300 if q else 1200, fuel = 6000, desc = "compound bump '%s' == iterated dt_bump (|t1-t0| <= %d %s)" % (b, span, 'hours' if any(u in b for u in 'hns') else 'days')))
     obs.append(Ob('zero-bump', h_zero, setup = S, desc = 'zero bumps raise ValueError'))
     return obs
